@@ -82,8 +82,25 @@ type Sched struct {
 	Mode   int    `json:"mode,omitempty"`
 	Jitter uint64 `json:"jitter,omitempty"` // seed of random yields at hook points (0: none)
 	// Ctx: the caller's context is 1 a context.WithCancel(context.Background()), 2 a context type of the caller's own
-	// (callerCtx); 0 = not fixed by the script: the driver alternates
+	// (callerCtx), 3 a context.WithCancelCause cancelled with a cause of the caller's own, 4 a context.WithTimeoutCause
+	// (expired before Send when Pre, else cancelled through its CancelFunc), 5 a context.WithCancel child of a kind-3
+	// context whose parent is cancelled with a cause, 6 a context.WithDeadlineCause (as 4);
+	// 0 = not fixed by the script: the driver rotates
 	Ctx int `json:"ctx,omitempty"`
+	// HoldGate: the gated nodes of this Send stay parked inside Process until the NEXT Send of the sequence has returned
+	// (or its watchdog fired); this Send is cancelled while they are parked
+	HoldGate bool `json:"hold_gate,omitempty"`
+	// Caller: 0 Send is called from a goroutine of its own, 1 from the one goroutine that calls all such Sends of the
+	// sequence back to back
+	Caller int `json:"caller,omitempty"`
+}
+
+// Step is a further Send on the same Broker: registry calls made after the previous Send, then the Send.
+type Step struct {
+	Ops   []Op  `json:"ops,omitempty"`
+	Ety   int   `json:"ety"`
+	Gate  []int `json:"gate,omitempty"`
+	Sched Sched `json:"sched"`
 }
 
 // behaviour codes of a harness node per visit: 0 pass (return the event), 1 replace (return a fresh event),
@@ -97,6 +114,9 @@ type Case struct {
 	Beh   [][]int `json:"beh"`            // Beh[obj-1] = behaviour codes by visit number (cyclic)
 	Gate  []int   `json:"gate,omitempty"` // objects whose Process blocks until Send has returned
 	Sched Sched   `json:"sched"`
+	Then  []Step  `json:"then,omitempty"` // further registry calls and Sends on the same Broker
+	// SendIndex says which Send of the sequence an emitted record describes (0 = the first)
+	SendIndex int `json:"send_index,omitempty"`
 }
 
 func nid(i int) el.NodeID {
@@ -188,7 +208,6 @@ type hnode struct {
 	obj    int
 	typ    el.NodeType
 	beh    []int
-	gate   bool
 	w      *world
 	visits int
 }
@@ -196,7 +215,7 @@ type hnode struct {
 func (n *hnode) Reopen() error     { return nil }
 func (n *hnode) Type() el.NodeType { return n.typ }
 func (n *hnode) Process(ctx context.Context, e *el.Event) (*el.Event, error) {
-	r := n.w.r
+	r := n.w.recFor(e)
 	if r == nil {
 		return e, nil
 	}
@@ -211,7 +230,7 @@ func (n *hnode) Process(ctx context.Context, e *el.Event) (*el.Event, error) {
 	}
 	r.inProcess++
 	r.mu.Unlock()
-	if n.gate {
+	if r.gate[n.obj] {
 		r.waitGate()
 	}
 	var out *el.Event
@@ -339,6 +358,7 @@ type rec struct {
 	payload                                             interface{}
 	t0                                                  time.Time
 	gateReleased                                        bool
+	gate                                                map[int]bool
 }
 
 func (r *rec) internEv(e *el.Event) int {
@@ -424,7 +444,8 @@ func (r *rec) waitGate() {
 	start := time.Now()
 	for {
 		r.mu.Lock()
-		free := r.returned || r.done || r.gateReleased || (r.cancelled && r.sched.Mode == 2)
+		hold := r.sched.HoldGate
+		free := r.done || r.gateReleased || (!hold && (r.returned || (r.cancelled && r.sched.Mode == 2)))
 		// no cancellation will come (or it sits behind this node): do not block an uncancelled Send for ever
 		if !free && !r.cancelled && time.Since(start) > 30*time.Millisecond {
 			free = true
@@ -446,15 +467,8 @@ func (r *rec) hook(name string, args ...interface{}) {
 	if len(args) == 0 {
 		return
 	}
-	ch := args[0]
 	r.mu.Lock()
 	if r.done {
-		r.mu.Unlock()
-		return
-	}
-	if r.ch == nil {
-		r.ch = ch
-	} else if r.ch != ch {
 		r.mu.Unlock()
 		return
 	}
@@ -581,9 +595,44 @@ func (r *rec) hook(name string, args ...interface{}) {
 
 // ---------- running one case ----------
 type world struct {
-	b   *el.Broker
-	all []*hnode
-	r   *rec
+	b      *el.Broker
+	all    []*hnode
+	caller chan func() // the goroutine that calls the Sends with Sched.Caller = 1
+}
+
+// the verif hook and the harness nodes find the recorder of the Send they belong to: by the status channel every hook
+// passes first, and by the payload every event of a Send carries (Sends of one sequence may overlap: goroutines an earlier
+// Send left behind run while the next Send is under way)
+var router struct {
+	sync.Mutex
+	byChan    map[interface{}]*rec
+	byPayload map[interface{}]*rec
+	starting  *rec
+}
+
+func routeHook(name string, args ...interface{}) {
+	if len(args) == 0 {
+		return
+	}
+	router.Lock()
+	r := router.byChan[args[0]]
+	if r == nil && router.starting != nil {
+		r = router.starting
+		router.starting = nil
+		router.byChan[args[0]] = r
+	}
+	router.Unlock()
+	if r != nil {
+		r.hook(name, args...)
+	}
+}
+func (w *world) recFor(e *el.Event) *rec {
+	if e == nil {
+		return nil
+	}
+	router.Lock()
+	defer router.Unlock()
+	return router.byPayload[e.Payload]
 }
 
 func (w *world) apply(op Op, c *Case) {
@@ -593,11 +642,6 @@ func (w *world) apply(op Op, c *Case) {
 		h := &hnode{obj: op.Obj, typ: ntype(op.Ty), w: w}
 		if op.Obj >= 1 && op.Obj <= len(c.Beh) {
 			h.beh = c.Beh[op.Obj-1]
-		}
-		for _, g := range c.Gate {
-			if g == op.Obj {
-				h.gate = true
-			}
 		}
 		w.all = append(w.all, h)
 		_ = w.b.RegisterNode(nid(op.ID), h, polOpt(op.Pol, true)...)
@@ -662,18 +706,71 @@ type Result struct {
 
 var payloadSeq int
 
-func execCase(c Case) (res Result) {
-	b, _ := el.NewBroker()
-	w := &world{b: b}
-	for _, op := range c.Hist {
-		w.apply(op, &c)
+type causeErr struct{ n int }
+
+func (e *causeErr) Error() string { return fmt.Sprintf("caller's cause %d", e.n) }
+
+// callerContext builds the caller's context of the kind the script names and the function that ends it
+func callerContext(kind int, pre bool) (context.Context, func()) {
+	switch kind {
+	case 2:
+		cc := newCallerCtx()
+		return cc, cc.cancel
+	case 3:
+		ctx, cancel := context.WithCancelCause(context.Background())
+		return ctx, func() { cancel(&causeErr{3}) }
+	case 4, 6:
+		d := time.Hour
+		if pre {
+			d = time.Nanosecond // expires (with its cause) before Send is called
+		}
+		var ctx context.Context
+		var cancel context.CancelFunc
+		if kind == 4 {
+			ctx, cancel = context.WithTimeoutCause(context.Background(), d, &causeErr{4})
+		} else {
+			ctx, cancel = context.WithDeadlineCause(context.Background(), time.Now().Add(d), &causeErr{6})
+		}
+		if pre {
+			<-ctx.Done()
+		}
+		return ctx, cancel
+	case 5:
+		parent, cancelParent := context.WithCancelCause(context.Background())
+		ctx, cancel := context.WithCancel(parent)
+		return ctx, func() { cancelParent(&causeErr{5}); cancel() }
 	}
+	return context.WithCancel(context.Background())
+}
+
+// flight is one Send under way / finished
+type flight struct {
+	w      *world
+	r      *rec
+	res    Result
+	ctx    context.Context
+	cancel func()
+	before map[string]bool
+	done   chan struct{}
+	st     el.Status
+	err    error
+}
+
+// startSend takes the snapshot of the type's pipelines, calls Send and waits until it has returned (or the watchdog fires)
+func (w *world) startSend(etyN int, gate []int, sched Sched) *flight {
+	b := w.b
+	f := &flight{w: w, done: make(chan struct{})}
 	r := &rec{refs: map[interface{}][2]int{}, refObj: map[interface{}]int{}, occ: map[pkey]int{}, evIDs: map[*el.Event]int{},
-		sched: c.Sched, event0ok: true, sentType: ety(c.Ety)}
-	if c.Sched.Jitter != 0 {
-		r.rnd = hc.NewRand(c.Sched.Jitter)
+		sched: sched, event0ok: true, sentType: ety(etyN), gate: map[int]bool{}}
+	f.r = r
+	for _, g := range gate {
+		r.gate[g] = true
 	}
-	roots, ok := b.VerifRoots(ety(c.Ety))
+	if sched.Jitter != 0 {
+		r.rnd = hc.NewRand(sched.Jitter)
+	}
+	res := &f.res
+	roots, ok := b.VerifRoots(ety(etyN))
 	res.HasGraph = ok
 	for id, chain := range roots {
 		sp := snapPipe{Pid: unN(string(id))}
@@ -690,34 +787,25 @@ func execCase(c Case) (res Result) {
 	}
 	sort.Slice(res.Snapshot, func(i, j int) bool { return res.Snapshot[i].Pid < res.Snapshot[j].Pid })
 
-	var ctx context.Context
-	var cancel func()
-	if c.Sched.Ctx == 2 {
-		cc := newCallerCtx()
-		ctx, cancel = cc, cc.cancel
-	} else {
-		ctx, cancel = context.WithCancel(context.Background())
-	}
-	defer cancel() // the caller's context ends only after the goroutine-leak oracle below has looked
-	r.cancel = cancel
-	before := goroutineIDs()
+	f.ctx, f.cancel = callerContext(sched.Ctx, sched.Pre)
+	r.cancel = f.cancel
+	f.before = goroutineIDs()
 	payloadSeq++
 	payload := &struct{ n int }{payloadSeq}
 	r.payload = payload
 	r.t0 = time.Now()
 	r.last = r.t0
-	w.r = r
-	el.VerifSetHook(r.hook)
-	if c.Sched.Pre {
+	router.Lock()
+	router.byPayload[payload] = r
+	router.starting = r
+	router.Unlock()
+	if sched.Pre {
 		r.cancelled = true
 		r.cancelTime = time.Now()
-		cancel()
+		f.cancel()
 	}
-	var st el.Status
-	var err error
-	done := make(chan struct{})
-	go func() {
-		defer close(done)
+	call := func() {
+		defer close(f.done)
 		defer func() {
 			if p := recover(); p != nil {
 				r.mu.Lock()
@@ -725,7 +813,7 @@ func execCase(c Case) (res Result) {
 				r.mu.Unlock()
 			}
 		}()
-		st, err = b.Send(ctx, ety(c.Ety), payload)
+		f.st, f.err = b.Send(f.ctx, ety(etyN), payload)
 		r.mu.Lock()
 		if !r.done {
 			r.returned = true
@@ -734,9 +822,14 @@ func execCase(c Case) (res Result) {
 			r.last = r.returnTime
 		}
 		r.mu.Unlock()
-	}()
+	}
+	if sched.Caller == 1 {
+		w.caller <- call
+	} else {
+		go call()
+	}
 	select {
-	case <-done:
+	case <-f.done:
 		res.Returned = true
 	case <-time.After(3 * time.Second):
 		// watchdog: Send did not return
@@ -744,13 +837,30 @@ func execCase(c Case) (res Result) {
 		r.done = true
 		r.mu.Unlock()
 		res.Goroutines = graphGoroutines()
-		cancel()
+	}
+	router.Lock()
+	if router.starting == r {
+		router.starting = nil
+	}
+	router.Unlock()
+	return f
+}
+
+// finish lets the goroutines Send left behind run out, looks for goroutines that remain, and collects what was observed
+func (f *flight) finish() Result {
+	r, res := f.r, &f.res
+	r.mu.Lock()
+	r.gateReleased = true
+	r.mu.Unlock()
+	if !res.Returned {
+		f.cancel()
 		select {
-		case <-done:
+		case <-f.done:
 		case <-time.After(time.Second):
 		}
 	}
-	// let the goroutines Send left behind finish: all nodes returned, every invocation exited, channel closed
+	defer f.cancel() // the caller's context ends only after the goroutine-leak oracle below has looked
+	// all nodes returned, every invocation exited, channel closed
 	grace := 150 * time.Millisecond
 	deadline := time.Now().Add(3 * time.Second)
 	for res.Returned {
@@ -774,7 +884,7 @@ func execCase(c Case) (res Result) {
 		// the call, and goroutines that neither run library / context code nor were created by it, are ignored.
 		settle := time.Now().Add(250 * time.Millisecond)
 		for {
-			res.Leaked = sendGoroutines(before)
+			res.Leaked = sendGoroutines(f.before)
 			if res.Leaked == "" || time.Now().After(settle) {
 				break
 			}
@@ -805,25 +915,67 @@ func execCase(c Case) (res Result) {
 		res.Goroutines = graphGoroutines()
 	}
 	if res.Returned && res.Panic == "" {
-		for _, id := range st.Complete() {
+		for _, id := range f.st.Complete() {
 			res.Complete = append(res.Complete, unN(string(id)))
 		}
-		for _, id := range st.CompleteSinks() {
+		for _, id := range f.st.CompleteSinks() {
 			res.Sinks = append(res.Sinks, unN(string(id)))
 		}
-		for _, wn := range st.Warnings {
+		for _, wn := range f.st.Warnings {
 			res.Warnings = append(res.Warnings, errID(wn))
 		}
-		res.Err = err != nil
-		if err != nil {
-			res.ErrText = err.Error()
-			if ce := ctx.Err(); ce != nil {
-				res.ErrCtx = errors.Is(err, ce)
+		res.Err = f.err != nil
+		if f.err != nil {
+			res.ErrText = f.err.Error()
+			if ce := f.ctx.Err(); ce != nil {
+				res.ErrCtx = errors.Is(f.err, ce)
 			}
 		}
 	}
-	w.r = nil
-	return res
+	return *res
+}
+
+// execCase runs the Sends of a case on one Broker, the registry calls of each step in between; one Result per Send
+func execCase(c Case) []Result {
+	b, _ := el.NewBroker()
+	w := &world{b: b, caller: make(chan func())}
+	go func() {
+		for f := range w.caller {
+			f()
+		}
+	}()
+	defer close(w.caller)
+	for _, op := range c.Hist {
+		w.apply(op, &c)
+	}
+	steps := append([]Step{{Ety: c.Ety, Gate: c.Gate, Sched: c.Sched}}, c.Then...)
+	results := make([]Result, len(steps))
+	var held *flight
+	heldAt := -1
+	for i, st := range steps {
+		for _, op := range st.Ops {
+			w.apply(op, &c)
+		}
+		f := w.startSend(st.Ety, st.Gate, st.Sched)
+		if st.Sched.HoldGate && f.res.Returned && i+1 < len(steps) {
+			// its gated nodes stay parked while the next Send runs
+			if held != nil {
+				results[heldAt] = held.finish()
+			}
+			held, heldAt = f, i
+			continue
+		}
+		results[i] = f.finish()
+		if held != nil {
+			// only now are the nodes of the earlier Send let go; afterwards nothing of it may remain either
+			results[heldAt] = held.finish()
+			held = nil
+		}
+	}
+	if held != nil {
+		results[heldAt] = held.finish()
+	}
+	return results
 }
 
 // goroutines of this process that are inside eventlogger.(*graph) functions
@@ -981,20 +1133,59 @@ type emitter struct {
 	current   string
 }
 
-func (e *emitter) run(c Case) Result {
-	e.nextID++
-	c.ID = e.nextID
+func (e *emitter) run(c Case) Result { return e.runSeq(c)[0] }
+
+var ctxKindName = []string{"?", "context.WithCancel", "custom-type", "WithCancelCause", "WithTimeoutCause", "child-of-cancel-cause", "WithDeadlineCause"}
+
+// runSeq executes a case (one Send, or a sequence of registry calls and Sends on one Broker) and emits one dcase per Send,
+// whose history is everything the Broker was told up to that Send
+func (e *emitter) runSeq(c Case) []Result {
+	rot := []int{1, 2, 3, 5, 4, 2, 1, 3, 6, 5}
 	if c.Sched.Ctx == 0 {
-		c.Sched.Ctx = 1 + e.nextID%2
+		c.Sched.Ctx = rot[(e.nextID+1)%len(rot)]
 	}
+	for i := range c.Then {
+		if c.Then[i].Sched.Ctx == 0 {
+			c.Then[i].Sched.Ctx = rot[(e.nextID+2+i)%len(rot)]
+		}
+	}
+	c.ID = e.nextID + 1
 	if e.current != "" {
 		// a panic inside a goroutine of the library kills this process: leave the running case behind for the report
 		js, _ := json.Marshal(c)
 		os.WriteFile(e.current, js, 0o644)
 	}
-	res := execCase(c)
+	results := execCase(c)
+	hist := append([]Op{}, c.Hist...)
+	steps := append([]Step{{Ety: c.Ety, Gate: c.Gate, Sched: c.Sched}}, c.Then...)
+	for i, res := range results {
+		e.nextID++
+		st := steps[i]
+		hist = append(hist, st.Ops...)
+		view := Case{ID: e.nextID, Gen: c.Gen, Hist: append([]Op{}, hist...), Ety: st.Ety, Beh: c.Beh, Gate: st.Gate, Sched: st.Sched}
+		e.account(view, res, len(results) > 1)
+		if err := e.cf.Add(caseLit(view, res)); err != nil {
+			panic(err)
+		}
+		full := c
+		full.ID = e.nextID
+		full.SendIndex = i
+		js, _ := json.Marshal(struct {
+			Case
+			Res Result `json:"observed"`
+		}{full, res})
+		e.side.Write(js)
+		e.side.Write([]byte("\n"))
+	}
+	return results
+}
+
+func (e *emitter) account(c Case, res Result, inSeq bool) {
 	e.stats["cases"]++
 	e.stats["gen:"+c.Gen]++
+	if inSeq {
+		e.stats["sends_in_multi_send_sequences"]++
+	}
 	if res.Panic != "" {
 		e.panics = append(e.panics, fmt.Sprintf("case %d: panic: %s", c.ID, res.Panic))
 	}
@@ -1013,7 +1204,12 @@ func (e *emitter) run(c Case) Result {
 	if len(c.Gate) > 0 {
 		e.stats["with_gated_nodes"]++
 	}
-	e.stats[fmt.Sprintf("caller_ctx:%s", []string{"?", "context.WithCancel", "custom-type"}[c.Sched.Ctx])]++
+	if c.Sched.HoldGate {
+		e.stats["sends_whose_nodes_stay_parked_during_the_next_send"]++
+	}
+	if k := c.Sched.Ctx; k >= 0 && k < len(ctxKindName) {
+		e.stats["caller_ctx:"+ctxKindName[k]]++
+	}
 	if res.Leaked != "" {
 		e.stats["goroutines_left_after_send"]++
 	}
@@ -1071,16 +1267,6 @@ func (e *emitter) run(c Case) Result {
 			e.nontriv++
 		}
 	}
-	if err := e.cf.Add(caseLit(c, res)); err != nil {
-		panic(err)
-	}
-	js, _ := json.Marshal(struct {
-		Case
-		Res Result `json:"observed"`
-	}{c, res})
-	e.side.Write(js)
-	e.side.Write([]byte("\n"))
-	return res
 }
 
 func runCorpus(e *emitter, path string, repeat int) {
@@ -1100,7 +1286,7 @@ func runCorpus(e *emitter, path string, repeat int) {
 		}
 		c.Gen = "corpus"
 		for i := 0; i < repeat; i++ {
-			e.run(c)
+			e.runSeq(c)
 		}
 	}
 }
@@ -1114,6 +1300,8 @@ func main() {
 	cancelRandom := flag.Int("cancel-random", 2, "cancel: random configurations in addition to the fixed menu")
 	cancelReps := flag.Int("cancel-reps", 1, "cancel: repetitions (jitter seeds) per position and order")
 	nRandom := flag.Int("random", 300, "random: configurations")
+	seqRandom := flag.Int("sequence-random", 20, "sequence: random multi-Send sequences in addition to all ordered pairs of registry mutations")
+	twoReps := flag.Int("twosend-reps", 3, "twosend: repetitions of the (cancelled Send with a parked node, independent Send) pair per Broker")
 	perShard := flag.Int("per-shard", 250, "cases per file")
 	corpus := flag.String("corpus", "", "corpus file (JSON lines), run first")
 	corpusRepeat := flag.Int("corpus-repeat", 5, "runs per corpus case")
@@ -1122,6 +1310,8 @@ func main() {
 	if runtime.GOMAXPROCS(0) < 4 {
 		runtime.GOMAXPROCS(4)
 	}
+	router.byChan, router.byPayload = map[interface{}]*rec{}, map[interface{}]*rec{}
+	el.VerifSetHook(routeHook)
 
 	if *replay != "" {
 		data, err := os.ReadFile(*replay)
@@ -1164,6 +1354,10 @@ func main() {
 			summary["thresholds_exhaustive_pipelines"] = *thrN
 		case "paths":
 			genPaths(e)
+		case "sequence":
+			genSequence(e, r.Fork(), *seqRandom)
+		case "twosend":
+			genTwoSend(e, r.Fork(), *twoReps)
 		case "cancel":
 			n := genCancel(e, r.Fork(), *cancelRandom, *cancelReps)
 			summary["cancel_positions_forced"] = n
